@@ -143,6 +143,15 @@ func permutations(n int) [][]int {
 
 func genC11(r *Rng, tier string) []Case {
 	cs := []Case{}
+	// the same entry objects encoded twice (a retry, a second sink)
+	for i := 0; i < 40; i++ {
+		m := randMap(r, 1, r.Intn(5))
+		ents := []Sx{}
+		for _, e := range m.L[1].L {
+			ents = append(ents, L(e.L[0], e.L[1]))
+		}
+		cs = append(cs, Case{"cbor_map_twice", ents})
+	}
 	prog := func(items ...Sx) { cs = append(cs, Case{"cbor_prog", items}) }
 	// integers at every head-size boundary
 	for _, u := range u64Edges {
@@ -412,6 +421,14 @@ func genC12(r *Rng, tier string) []Case {
 			in[r.Intn(len(in))] ^= byte(1 << uint(r.Intn(8)))
 		}
 		dec(kinds, in)
+	}
+	// declared lengths far beyond the data, through a reader that has no Len() (a file, a network body)
+	for _, v := range []uint64{1 << 20, 1 << 31, 1<<31 - 1, 1 << 32, 1 << 40, 1 << 48, 1<<62 + 7, 1<<63 - 1, 1 << 63, 1<<64 - 1} {
+		for _, major := range []byte{0x40, 0x60} {
+			for _, k := range []string{"bytes", "text"} {
+				cs = append(cs, Case{"cbor_dec", []Sx{L(Sym(k), Sym("uint")), B(append(headBytes(major, 8, v), asciiBytes(r, 12)...)), Sym("nolen")}})
+			}
+		}
 	}
 	// one decoder, many segments: failed calls (truncated heads / contents, wrong type,
 	// bad UTF-8) followed by good ones on the same decoder object
